@@ -490,7 +490,7 @@ package helper
 
 // columns are mapped by header name: ColumnIndex is the position of the field's header in the header row, -1 if absent
 //@ func Csv.updateColumnIndexes
-//@ modifies c
+//@ modifies c.columns
 //@ ensures[C19,C11] len(c.columns) == old(len(c.columns)) && (forall j :: 0 <= j && j < len(c.columns) ==> c.columns[j].Header == old(c.columns[j].Header) && c.columns[j].FieldIndex == old(c.columns[j].FieldIndex))
 //@ ensures[C19,C11] result == nil ==> csvfpr(csvReader) >= 0 && (forall j :: 0 <= j && j < len(c.columns) ==> c.columns[j].ColumnIndex == 0 - 1 || (0 <= c.columns[j].ColumnIndex && c.columns[j].ColumnIndex < csvfpr(csvReader)))
 //@ ensures[C19,C11] result != nil ==> (forall j :: 0 <= j && j < len(c.columns) ==> c.columns[j].ColumnIndex == old(c.columns[j].ColumnIndex))
@@ -508,7 +508,7 @@ package helper
 // (loop#0's invariant tagged C11): a comment character, another separator, lazy quotes or trimming would make written rows
 // read back differently (C11)
 //@ func Csv.ReadFromReader
-//@ modifies c
+//@ modifies c.columns
 //@ requires forall j :: 0 <= j && j < len(c.columns) ==> c.columns[j].ColumnIndex >= 0 - 1
 //@ ensures[C19] "stream-is-closed-on-every-path" closed(result)
 //@ loop#0 invariant !closed(rows) && extrem(csvReader) >= 0 && (forall j :: 0 <= j && j < len(c.columns) ==> c.columns[j].ColumnIndex >= 0 - 1)
@@ -546,6 +546,13 @@ package helper
 //@ ensures[C10] result1 == nil ==> consumed(result0) == 0 && closed(result0) && len(result0) == len(view(csvfs)[fileName])
 //@ ensures[C10] result1 == nil ==> (forall k :: 0 <= k && k < len(result0) ==> result0[k] == view(csvfs)[fileName][k])
 //@ ensures[C10] result1 != nil ==> len(result0) == 0
+
+// a file that cannot be opened - whatever the reason - is reported to the caller, not turned into an empty stream
+//@ func Csv.ReadFromFile
+//@ modifies c.columns
+//@ requires forall j :: 0 <= j && j < len(c.columns) ==> c.columns[j].ColumnIndex >= 0 - 1
+//@ guarantees[C19,C10] "open-failure-is-an-error" (res(os_Open, 0, 1) != nil) == (result1 != nil)
+//@ ensures[C19] result1 == nil ==> closed(result0)
 
 //@ func Csv.WriteToFile
 //@ requires consumed(rows) == 0
